@@ -92,6 +92,9 @@ func (e *Exec) runBlock(w work) ([]work, *Outcome) {
 			if c.IsFalse() {
 				return []work{{st, fr, f, blk, 0}}, nil
 			}
+			if e.tryMergeTriangle(st, fr, blk, c) {
+				return []work{{st, fr, e.mergedJoin, blk, e.mergedIdx}}, nil
+			}
 			e.noteSymbolicBranch(fr, blk)
 			st2 := st.clone()
 			fr2 := fr.clone()
@@ -1552,4 +1555,216 @@ func (e *Exec) nonNeg(t *Term) *Term {
 		return e.C.ILe(e.C.Inti(0), t)
 	}
 	return e.C.True()
+}
+
+// tryMergeTriangle if-converts `if c { list = append(list, lit...) }` triangles (the arm only allocates
+// the variadic array and appends to a local slice of non-scalars): instead of forking, the join's phi
+// becomes a conditional list whose new elements are present iff c. This keeps 16..32 consecutive flag
+// tests linear instead of 2^n paths. Anything else falls back to path forking.
+func (e *Exec) tryMergeTriangle(st *State, fr *Frame, blk *ssa.BasicBlock, c *Term) bool {
+	t, f := blk.Succs[0], blk.Succs[1]
+	cond := c
+	arm, join := t, f
+	if !(len(t.Preds) == 1 && len(t.Succs) == 1 && t.Succs[0] == f) {
+		if len(f.Preds) == 1 && len(f.Succs) == 1 && f.Succs[0] == t {
+			arm, join, cond = f, t, e.C.Not(c)
+		} else {
+			return false
+		}
+	}
+	if li := e.loops(fr.Fn); li.headers[arm] {
+		return false
+	} else if li.headers[join] {
+		// joining at a loop header is fine while the loop is being unrolled (concrete trip count, e.g. a range
+		// over a literal map); not when the loop is cut at an invariant
+		key := loopKey{fr.Fn, li.ordinal[join]}
+		if e.cutHeaders[key] || e.W.hasLoopClauses(fr.Fn, li.ordinal[join]) || (fr.Cuts != nil && fr.Cuts[join] != nil) {
+			return false
+		}
+	}
+	// the arm may only contain: Alloc, IndexAddr, Store, Slice, append, MakeInterface, Jump, DebugRef
+	for _, in := range arm.Instrs {
+		switch x := in.(type) {
+		case *ssa.Alloc, *ssa.IndexAddr, *ssa.Store, *ssa.Slice, *ssa.Jump, *ssa.DebugRef, *ssa.MakeInterface, *ssa.UnOp, *ssa.BinOp, *ssa.Convert, *ssa.ChangeType, *ssa.Extract, *ssa.Lookup:
+			if u, ok := in.(*ssa.UnOp); ok && u.Op != token.MUL && u.Op != token.NOT && u.Op != token.SUB && u.Op != token.XOR {
+				return false
+			}
+		case *ssa.Call:
+			b, ok := x.Call.Value.(*ssa.Builtin)
+			if !ok || b.Name() != "append" {
+				return false
+			}
+		default:
+			return false
+		}
+	}
+	// phis of the join: only slices of non-scalars (lists) or scalars
+	var phis []*ssa.Phi
+	for _, in := range join.Instrs {
+		ph, ok := in.(*ssa.Phi)
+		if !ok {
+			break
+		}
+		phis = append(phis, ph)
+	}
+	if len(phis) == 0 {
+		return false
+	}
+	hasList := false
+	for _, ph := range phis {
+		if sl, ok := ph.Type().Underlying().(*types.Slice); ok && !isScalarType(sl.Elem()) {
+			hasList = true
+		} else if !isScalarType(ph.Type()) {
+			return false
+		}
+	}
+	if !hasList {
+		return false
+	}
+	// speculative execution of the arm
+	stT := st.clone()
+	frT := fr.clone()
+	stT.assume(cond)
+	nObl := len(e.Obls)
+	ok := func() (ok bool) {
+		defer func() {
+			if r := recover(); r != nil {
+				if _, isBail := r.(Bail); isBail {
+					ok = false
+					return
+				}
+				panic(r)
+			}
+		}()
+		for _, in := range arm.Instrs {
+			switch x := in.(type) {
+			case *ssa.Jump, *ssa.DebugRef:
+				continue
+			case *ssa.Call:
+				rs := e.call(stT, frT, x.Common(), x, x.Type())
+				if len(rs) != 1 || rs[0].st != stT {
+					return false
+				}
+				frT.Env[x] = rs[0].v
+			default:
+				if forks := e.simple(stT, frT, in); forks != nil || stT.Dead {
+					return false
+				}
+			}
+		}
+		return true
+	}()
+	if !ok || stT.Dead {
+		e.Obls = e.Obls[:nObl]
+		return false
+	}
+	// merge phi values
+	pa, pb := predIndex(join, arm), predIndex(join, blk)
+	merged := make([]Val, len(phis))
+	for k, ph := range phis {
+		vT := e.val(stT, frT, ph.Edges[pa])
+		vF := e.val(st, fr, ph.Edges[pb])
+		switch a := vT.(type) {
+		case *Term:
+			b, okb := vF.(*Term)
+			if !okb {
+				e.Obls = e.Obls[:nObl]
+				return false
+			}
+			merged[k] = e.C.Ite(cond, a, b)
+		case *SliceVal:
+			b, okb := vF.(*SliceVal)
+			if !okb {
+				e.Obls = e.Obls[:nObl]
+				return false
+			}
+			m := e.mergeLists(st, stT, cond, a, b)
+			if m == nil {
+				e.Obls = e.Obls[:nObl]
+				return false
+			}
+			merged[k] = m
+		default:
+			e.Obls = e.Obls[:nObl]
+			return false
+		}
+	}
+	// the arm's fresh objects stay reachable only through merged values; copy nothing else.
+	for k, ph := range phis {
+		fr.Env[ph] = merged[k]
+	}
+	e.mergedJoin = join
+	e.mergedIdx = firstNonPhi(join)
+	e.Merges++
+	return true
+}
+
+// mergeLists: `taken` (in state stT) extends `base` (in state st) by appended elements; the result is a
+// conditional list in st.
+func (e *Exec) mergeLists(st, stT *State, cond *Term, taken, base *SliceVal) *SliceVal {
+	c := e.C
+	entries := func(s *State, v *SliceVal) ([]Val, []*Term, bool, bool) {
+		if v.Obj == 0 || (v.Len.IsConst() && v.Len.C.Sign() == 0 && v.Obj != 0 && e.sliceBacking(s, v).List == nil) {
+			return nil, nil, false, true
+		}
+		av := e.sliceBacking(s, v)
+		if av.Scalar || av.Sym != "" || !v.Off.IsConst() || v.Off.C.Sign() != 0 {
+			return nil, nil, false, false
+		}
+		n := len(av.List)
+		if av.Conds == nil {
+			if !v.Len.IsConst() || int(v.Len.C.Int64()) != n {
+				if v.Len.IsConst() && int(v.Len.C.Int64()) <= n {
+					n = int(v.Len.C.Int64())
+				} else {
+					return nil, nil, false, false
+				}
+			}
+		}
+		conds := av.Conds
+		if conds == nil {
+			conds = make([]*Term, n)
+			for i := range conds {
+				conds[i] = c.True()
+			}
+		}
+		return av.List[:n], conds[:n], av.Unordered, true
+	}
+	bl, bc, bu, ok1 := entries(st, base)
+	tl, tc, tu, ok2 := entries(stT, taken)
+	if !ok1 || !ok2 || len(tl) < len(bl) {
+		return nil
+	}
+	for i := range bl {
+		if !sameVal(bl[i], tl[i]) || bc[i] != tc[i] {
+			return nil
+		}
+	}
+	list := append([]Val{}, bl...)
+	conds := append([]*Term{}, bc...)
+	for i := len(bl); i < len(tl); i++ {
+		list = append(list, tl[i])
+		conds = append(conds, c.And(cond, tc[i]))
+	}
+	ln := e.idx(0)
+	for _, cd := range conds {
+		ln = c.Add(ln, c.Ite(cd, e.idx(1), e.idx(0)))
+	}
+	av := &ArrayVal{ElemT: taken.ElemT, Len: ln, List: list, Conds: conds, Unordered: bu || tu}
+	id := e.newObj(st, av, &ObjMeta{T: types.NewArray(taken.ElemT, 0), Fresh: true})
+	return &SliceVal{Obj: id, Off: e.idx(0), Len: ln, Cap: ln, Nil: c.And(base.Nil, c.Not(cond)), ElemT: taken.ElemT}
+}
+
+func sameVal(a, b Val) bool {
+	if a == b {
+		return true
+	}
+	sa, ok1 := a.(*StringVal)
+	sb, ok2 := b.(*StringVal)
+	if ok1 && ok2 {
+		x, c1 := concreteString(sa)
+		y, c2 := concreteString(sb)
+		return c1 && c2 && x == y
+	}
+	return false
 }
